@@ -287,7 +287,12 @@ func (r *Rewriter) stmts(ss []Stmt, mut map[string]bool) []Stmt {
 					rhs = r.hoist(rhs, true, &pre)
 				}
 			}
-			out = append(append(out, pre...), &Assign{LHS: n.LHS, Op: n.Op, RHS: rhs})
+			var st Stmt = &Assign{LHS: n.LHS, Op: n.Op, RHS: rhs}
+			if r.hit() && r.Rng.IntN(2) == 0 {
+				r.Applied["wrap-in-if-true"]++
+				st = &If{Cond: &Lit{T: TBool, I: 1}, Then: []Stmt{st}}
+			}
+			out = append(append(out, pre...), st)
 		case *ExprStmt:
 			// arguments of a call statement, left to right, as long as nothing before them has
 			// side effects
@@ -338,6 +343,14 @@ func (r *Rewriter) stmts(ss []Stmt, mut map[string]bool) []Stmt {
 			out = append(out, m)
 		case *Block:
 			out = append(out, &Block{Body: r.stmts(n.Body, mut)})
+		case *Append, *IncDec:
+			// statements that declare nothing may be wrapped in `if true { }`
+			if r.hit() {
+				r.Applied["wrap-in-if-true"]++
+				out = append(out, &If{Cond: &Lit{T: TBool, I: 1}, Then: []Stmt{s}})
+			} else {
+				out = append(out, s)
+			}
 		default:
 			out = append(out, s)
 		}
